@@ -2,7 +2,9 @@
 (merge a stack of layer mappings with Mapping::merge, then render_with_self)."""
 import json
 from ..runner import Prop
+from ..prng import Rng
 from .. import core
+from .. import gendeep as D
 
 
 def has_ref(x):
@@ -27,6 +29,20 @@ class ParamsProp(Prop):
     # property's mandated output, so that a disagreement is a concrete failing input
     model_is_spec = True
     check_rerender = False
+    # directed families (vlib/gendeep.py) appended to the random stream: name -> cases per quick run
+    families = {}
+
+    def cases(self, tier, seed):
+        yield from self.base_cases(tier, seed)
+        yield from self.directed(tier, seed)
+
+    def directed(self, tier, seed):
+        for fam, nq in self.families.items():
+            n = nq if tier == "quick" else nq * 20
+            for i in range(n):
+                r = Rng(seed, self.id + ":" + fam, i)
+                layers = D.wide_mapping(r, tier) if fam == "wide_mapping" else D.FAMILIES[fam](r)
+                yield {"op": "params", "layers": layers, "fam": fam}
 
     def judge(self, req, impl, reply):
         if req.get("op") != "params":
@@ -77,6 +93,8 @@ class ParamsProp(Prop):
         if req.get("op") != "params" or not isinstance(impl, dict):
             return []
         t = ["layers=%d" % len(req["layers"])]
+        if req.get("fam"):
+            t.append("family=" + req["fam"])
         t.append("merged:" + result_kind(impl.get("merged")))
         t.append("rendered:" + result_kind(impl.get("rendered")))
         t.append("refs" if has_ref(req["layers"]) else "reffree")
